@@ -33,7 +33,8 @@ func init() {
 	register("C16", "other", func(c *Ctx) {
 		skeletonExplain(c, "C16 (formatter choice changes layout only; default is gofmt-canonical): (a) decision table of the formatter dispatch, extracted from the source by abstract interpretation over the formatter name: \"goimports\" → the goimports wrapper, \"noop\" → the input itself, anything else → the gofmt wrapper; (b) the gofmt wrapper returns exactly go/format.Source's result and an error otherwise, so default output = format.Source(t) and noop output = t for the same template text t; (c) in every skeleton the first line is the standard generated-code marker and only comments precede the package clause, which names the requested package.")
 		c.Run.Floor("K-HEADER/marker", 2)
-		c.RunSkeletons(SkelOpts{Rules: []string{"K-HEADER", "G-DATA/pkgname"}})
+		c.RunSkeletons(SkelOpts{Rules: []string{"K-HEADER", "G-DATA/pkgname", "G-FORMAT", "G-MOCK/write-what"}, Formatters: tmpl.Formatters})
+		flagFlow(c, "fmt")
 		genFormat(c)
 	})
 	register("C20", "other", func(c *Ctx) {
